@@ -91,6 +91,8 @@ package ecs
 //@        && s.entities[old(rowEnt(&s.tables[s.entities[entity.id].table])[s.tables[s.entities[entity.id].table].len-1]).id].row == old(s.entities[entity.id].row))
 //@   ensures  dead: !alive(&s.entityPool, entity)
 //@   ensures  others: forall h Entity :: h.id != entity.id ==> alive(&s.entityPool, h) == old(alive(&s.entityPool, h))
+//@   ensures  inv-cleanup: old(s.isTarget[entity.id]) ==> indexInv(s)
+//@   ensures  inv-direct: !old(s.isTarget[entity.id]) ==> indexInv(s)
 //@   ensures  inv: indexInv(s)
 //@   ensures  count: *epAlive(&s.entityPool) == old(*epAlive(&s.entityPool)) - 1
 //@   ensures  locks: s.locks.locks == old(s.locks.locks)
